@@ -7,6 +7,7 @@ import (
 
 	"github.com/bronlabs/bron-crypto/pkg/base/algebra"
 	"github.com/bronlabs/bron-crypto/pkg/base/serde"
+	"github.com/bronlabs/bron-crypto/pkg/base/utils"
 )
 
 type privateKeyDTO struct {
@@ -53,6 +54,9 @@ func (esk *ExtendedPrivateKey[S]) UnmarshalCBOR(data []byte) error {
 	dtoSk, err := NewPrivateKey(dto.V)
 	if err != nil {
 		return errs.Wrap(err).WithMessage("invalid private key")
+	}
+	if utils.IsNil(dto.S) {
+		return ErrValidation.WithMessage("extended private key scalar is nil")
 	}
 	dtoSf := algebra.StructureMustBeAs[algebra.PrimeField[S]](dto.S.Structure())
 	var ok bool
